@@ -64,6 +64,10 @@ CLAIMED = {
     text="specs/Serialization.tla models the archive as a token sequence (per dimension first and last index, then the elements in canonical order) and Load as 'take the saved extensions whatever the target held'; TLC checks the round trip on the model for every array within the bounds and every prior state of the target (empty, same extents, other extents) and emits the prescribed token stream; the replayer performs the real round trip through Boost.Serialization text, binary and XML archives for int, double and std::string elements and the loaded array must equal the original (extents as the library reports them, index bases, elements, operator==) and the XML token order must equal the prescribed stream; every ViewAlgebra view is saved and loaded into a fresh array's view and into a view with rotated memory layout: exactly the view's elements in canonical order, other elements untouched, source unchanged.",
     note="bounded: D 1..4, extents 0..3/2/2/1, index bases {-1,0,2} for D<=2; views: roots D<=3, extents 0..2, programs of <= 2 operations; nested-array element types and D=0 are not exercised; the life cycle of the load path is not re-validated here (C08 covers clear/reextent).",
     ref="DESIGN.md section 5 C17"),
+ "C18": dict(
+    text="For every view of ViewAlgebra.tla (which prescribes the view's canonical cells) the replayer builds mpi::message(view.elements()) in one MPI process; every MPI_Type_create_hvector/_resized/_dup/_vector/_commit/_free call is recorded through the PMPI profiling interface and validated by the TLA+ monitor specs/MpiTypes.tla, which rebuilds the type map of every handle from the constructor arguments and requires that (buffer, count, datatype) denotes exactly the prescribed cells x sizeof(int) in order, that the datatype is committed before use and that every created handle is freed exactly once; end to end, MPI_Pack of the message must yield the view's elements in canonical order and MPI_Unpack through the message of a view with rotated memory layout must put the k-th element into the k-th element and touch nothing else.",
+    note="bounded: roots D<=3 (4 in thorough), extents 0..3, programs of <= 2 operations, element type int; pack/unpack on MPI_COMM_SELF stand for send/receive; mpi::data(iterator) and create_subarray are not exercised.",
+    ref="DESIGN.md section 5 C18", tech="TLA+ trace monitor (MpiTypes.tla) over PMPI-recorded datatype calls on TLC-generated views + end-to-end pack/unpack comparison with the specification's cells"),
 }
 
 props = [json.loads(l) for l in open(os.path.join(V, "properties.jsonl"))]
